@@ -9,14 +9,17 @@ Go ↔ Lean
 Offsets are `Int`; the Go code computes in int64 — the theorems assume no overflow (|values| < 2^62 is enough),
 which the generator respects.
 -/
+import KafkaVerif.Gen.Offsets
+
 namespace KV.Seek
 
-def seekStart : Int := 0
-def seekAbsolute : Int := 1
-def seekEnd : Int := 2
-def seekCurrent : Int := 3
-/-- SeekDontCheck = 1 << 30 -/
-def dontCheckBit : Nat := 1073741824
+/-! the whence constants and the sentinel offsets are regenerated from conn.go / reader.go (Gen/Offsets.lean) -/
+def seekStart : Int := Gen.Offsets.seekStart
+def seekAbsolute : Int := Gen.Offsets.seekAbsolute
+def seekEnd : Int := Gen.Offsets.seekEnd
+def seekCurrent : Int := Gen.Offsets.seekCurrent
+/-- SeekDontCheck -/
+def dontCheckBit : Nat := Gen.Offsets.seekDontCheck
 
 inductive Outcome where
   | ok (newOffset : Int)   -- c.offset afterwards = the value returned (every success path returns the stored offset)
@@ -54,6 +57,6 @@ def needsOffsets (cur : Int) (offset : Int) (whence : Int) (dontCheck : Bool) : 
 
 /-- (*Conn).Offset: the sentinel offsets are reported relative to start / end -/
 def offsetOf (cur : Int) : Int × Int :=
-  if cur == -2 then (0, seekStart) else if cur == -1 then (0, seekEnd) else (cur, seekAbsolute)
+  if cur == Gen.Offsets.firstOffset then (0, seekStart) else if cur == Gen.Offsets.lastOffset then (0, seekEnd) else (cur, seekAbsolute)
 
 end KV.Seek
